@@ -698,6 +698,17 @@ func c03Getters(c *core.Ctx, pkt *packet.Packet, af *packet.AdaptationField, m *
 					return
 				}
 			}
+			// the EBP accessor is the private data of a non-empty adaptation field
+			ev, eerr := adaptationfield.EncoderBoundaryPoint(pkt)
+			if m.HasPriv {
+				if eerr != nil || !bytes.Equal(ev, m.Priv) {
+					ok = fail("adaptationfield.EncoderBoundaryPoint", fmt.Sprintf("%x %v", ev, eerr), fmt.Sprintf("%x", []byte(m.Priv)))
+					return
+				}
+			} else if eerr == nil {
+				ok = fail("adaptationfield.EncoderBoundaryPoint_absent", fmt.Sprintf("%x", ev), "an error")
+				return
+			}
 		}
 		// extension
 		{
